@@ -11,6 +11,7 @@ from clock, cancellation and the move schedule this is a function of its
 input.)
 """
 import collections
+import copy
 import random as pyrandom
 
 from rigsim.core import SimAbort
@@ -258,8 +259,10 @@ class PlaceEngine(object):
 
     # -- monitors ----------------------------------------------------------
     def judge(self, placements, where):
-        probs = prcheck.check_placement(self.g.vertices_resources, self.mv,
-                                        self.constraints, placements,
+        # judged against what the caller asked for (copies taken before any
+        # placer saw the constraint objects)
+        probs = prcheck.check_placement(self.vr_ref, self.mv,
+                                        self.constraints_ref, placements,
                                         self.cons)
         if probs:
             kind, msg = probs[0]
@@ -368,6 +371,12 @@ class PlaceEngine(object):
             if not any(res.values()):
                 w.probe("vertex_needing_nothing")
         self.constraints = self.build_constraints(g, complete)
+        self.constraints_ref = []
+        for c_ in self.constraints:
+            cc = copy.copy(c_)
+            if hasattr(cc, "vertices"):
+                cc.vertices = list(c_.vertices)
+            self.constraints_ref.append(cc)
         if complete:
             demand = sum(1 for v, r in g.vertices_resources.items()
                          if r.get(par.Cores) and v not in g.located)
@@ -387,6 +396,8 @@ class PlaceEngine(object):
                     g.vertices_resources[v] = collections.OrderedDict()
         if complete:
             w.probe("completeness_instance")
+        self.vr_ref = collections.OrderedDict(
+            (v, dict(r)) for v, r in g.vertices_resources.items())
         pname = self.pname = PLACERS[t.draw(len(PLACERS))]
         w.probe("placer_" + pname)
         kwargs = {}
@@ -503,6 +514,31 @@ class PlaceEngine(object):
             w.ops.append("-> placement of %d vertices (%d kernel calls)"
                          % (len(val), self.steps))
         w.ops_completed += 1
+        if t.draw(4) == 0:
+            # the caller places the same problem again - same dicts, lists,
+            # machine and constraint objects - with another (plain) placer
+            p2 = ["hilbert", "sequential", "breadth_first", "rcm", "rand"][
+                t.draw(5)]
+            fn2 = rig_module("rig.place_and_route.place." + p2).place
+            kw2 = {"random": prgen.seeded(t)} if p2 == "rand" else {}
+            w.probe("second_placement_same_objects")
+            w.trace.ev("second-placer-" + p2)
+            w.ops.append("again, same objects | placer=%s" % p2)
+            status, val = rigcall(
+                w, (exc.InsufficientResourceError,
+                    exc.InvalidConstraintError),
+                fn2, g.vertices_resources, g.nets, self.machine,
+                self.constraints, **kw2)
+            if status == "exc":
+                w.ops.append("-> %s: %s" % (type(val).__name__, val))
+                if complete:
+                    w.violate("COMPLETE", "%s (second placement of the same "
+                              "problem) raised %s on an instance every placer "
+                              "must solve" % (p2, type(val).__name__),
+                              kind="completeness", placer=p2)
+            else:
+                self.judge(val, "second placement")
+                w.ops.append("-> placement of %d vertices" % len(val))
         return {"placer": pname, "steps": self.steps}
 
 
